@@ -77,3 +77,43 @@ Proof. vm_compute. repeat split. Qed.
 (* the hypothesis of C19_pos_id_loaded_with_any_later_field is met by the subset of the last example: flag 3 *)
 Example ex_later_field : N.testbit (loaded_subset 0 (Some PNormalizedNouns)) 3 = true /\ N.testbit (loaded_subset 0 (Some PNormalizedNouns)) 2 = false.
 Proof. vm_compute. split; reflexivity. Qed.
+
+(* ---- Dictionary.lookup: the hypotheses of C19_lookup_rows are met by a stack of three certified dictionaries, each of which
+   holds the query "abc" AND its proper prefix "ab" (the array of Witness/C04.v as system, user 1 and user 2) ---- *)
+From SudachiVerif Require Import Model.Trie Model.WordIdTable Model.LexSet Model.LookupAll.
+From SudachiVerif Require Witness.C04.
+
+Definition ex_lex : lexicon := mkLex Witness.C04.ex_trie Witness.C04.ex_table.
+Definition ex_src : list row := [([97; 98], 1%Z); ([97; 98; 99], 1%Z); ([98], 2%Z)].
+Example ex_lookup_certified : forallb (fun L => cert_lex L ex_src 4) [ex_lex; ex_lex; ex_lex] = true.
+Proof. vm_compute. reflexivity. Qed.
+(* the walk: user 2's "ab", "abc"; user 1's "ab" (SHORTER than the entry before it), "abc"; the system's "ab", "abc" *)
+Example ex_lookup_walk : lookup_set [ex_lex; ex_lex; ex_lex] [97; 98; 99] 0
+  = Some [(536870912, 2); (536870913, 3); (268435456, 2); (268435457, 3); (0, 2); (1, 3)].
+Proof. vm_compute. reflexivity. Qed.
+(* all three "abc" are returned, last dictionary first -- and that is what the source rows say *)
+Example ex_lookup_all : lookup_all [ex_lex; ex_lex; ex_lex] [97; 98; 99] = Some [536870913; 268435457; 1]
+  /\ rows_answer [ex_src; ex_src; ex_src] [97; 98; 99] = [536870913; 268435457; 1]
+  /\ lookup_all [ex_lex; ex_lex; ex_lex] [97] = Some [] /\ lookup_all [ex_lex; ex_lex; ex_lex] [] = Some [].
+Proof. vm_compute. repeat split. Qed.
+
+(* a loop that stops at the first shorter entry after a match (early exit) loses the dictionaries searched later: refuted variant *)
+Fixpoint keep_until_shorter (n : N) (found : bool) (es : list (N * N)) : list N :=
+  match es with
+  | [] => []
+  | (w, e) :: t => if negb (e =? n) then (if found then [] else keep_until_shorter n found t) else w :: keep_until_shorter n true t
+  end.
+Example ex_early_exit_refuted :
+  option_map (keep_until_shorter 3 false) (lookup_set [ex_lex; ex_lex; ex_lex] [97; 98; 99] 0) = Some [536870913].
+Proof. vm_compute. reflexivity. Qed.
+
+(* ---- build / ubuild: the readings of Model/CliBuild.v accept today's steps and reject the two seeded shapes ---- *)
+From SudachiVerif Require Import Model.CliBuild.
+Example ex_build_steps :
+  steps_ok true ["read_conn"; "read_lexicon"; "resolve"; "open_output"; "compile"; "flush_checked"; "report"]%string = true
+  /\ steps_ok true ["read_conn"; "read_lexicon"; "resolve"; "open_output"; "compile"; "report"]%string = false
+  /\ steps_ok false ["read_lexicon"; "resolve"; "open_output"; "compile"; "flush_unchecked"; "report"]%string = false
+  /\ inputs_in_order "cmd.inputs.iter()" true 1 [] = true
+  /\ inputs_in_order "cmd.inputs.iter()" true 2 ["sort"%string] = false
+  /\ inputs_in_order "cmd.lexicon_files().iter()" true 1 ["dedup"; "sort"]%string = false.
+Proof. vm_compute. repeat split. Qed.
